@@ -6,7 +6,8 @@ fn page_freelist_cast<'a>(p: &'a Page) -> (r: &'a [PageID])
     ensures r@ == freelist_view(page_src(p).0, page_src(p).1, page_src(p).2), r@.len() == p.count,
 { unimplemented!() }
 
-pub closed spec fn oo_default_ok(o: OpenOptions) -> bool { oo_wf(o) && !o.flags.strict_mode && !o.flags.mmap_populate && !o.flags.direct_writes }
+// (which flags are on by default is a performance choice: C16 says they do not change behaviour, so the contract does not pin them)
+pub closed spec fn oo_default_ok(o: OpenOptions) -> bool { oo_wf(o) }
 pub closed spec fn oo_wf(o: OpenOptions) -> bool {
     o.pagesize >= 1024 && o.pagesize % 8 == 0 && o.num_pages >= 4
 }
